@@ -101,12 +101,17 @@ pub fn c03(g: &mut Gen) {
     // almost all of the sampled universe lies in one block
     for (nruns, big) in [(700usize, 1u64 << 40), (3300, 1u64 << 33), (700, 1u64 << 62)] {
         if !g.thorough && nruns > 1000 { continue; }
-        for shape in 0..4 {
+        for shape in 0..6 {
             let mut runs: Vec<(u64, u64)> = Vec::new();
             let mut pos = 0u64;
             if shape == 2 { pos = big; }                                   // huge gap first
             if shape == 3 { runs.push((0, big)); pos = big; }              // huge run first
-            for i in 0..nruns as u64 { let gap = 1 + (i % 3); let l = 1 + (i % 2); runs.push((pos + gap, l)); pos += gap + l; }
+            for i in 0..nruns as u64 {
+                let gap = 1 + (i % 3); let l = 1 + (i % 2); runs.push((pos + gap, l)); pos += gap + l;
+                // one block in the MIDDLE that is thousands of times heavier than the others (huge gap / huge run)
+                if i == nruns as u64 / 2 && shape == 4 { pos += big / 4096 + 200_000; }
+                if i == nruns as u64 / 2 && shape == 5 { let l2 = big / 4096 + 200_000; runs.push((pos + 2, l2)); pos += 2 + l2; }
+            }
             let mut len = pos;
             if shape == 0 { len = pos + big; }                             // huge trailing gap
             if shape == 1 { runs.push((pos + 1, big)); len = pos + 1 + big; } // huge final run
@@ -186,7 +191,7 @@ pub fn c10_rl(g: &mut Gen) {
         for seq in call_sequences(&fwd_alphabet(len - ones), depth) { lines.push(format!("rl A it zero : {}", seq.join(" "))); }
         let bits_alpha: Vec<String> = fwd_alphabet(len).into_iter().filter(|c| !c.ends_with(&MAXU.to_string())).collect();
         for seq in call_sequences(&bits_alpha, depth) { lines.push(format!("rl A it bits : {}", seq.join(" "))); }
-        for seq in call_sequences(&["n".to_string(), "N0".to_string(), "N1".to_string(), "N5".to_string()], depth) { lines.push(format!("rl A it run : {}", seq.join(" "))); }
+        for seq in call_sequences(&["n".to_string(), "N0".to_string(), "N1".to_string(), "N5".to_string(), "c".to_string(), "L".to_string()], depth) { lines.push(format!("rl A it run : {}", seq.join(" "))); }
         for r in 0..=(ones + 1) { lines.push(format!("rl A it sel {} : l n n N1 l n", r)); }
         for r in 0..=(len - ones + 1) { lines.push(format!("rl A it sel0 {} : l n n N1 l n", r)); }
         for x in 0..=(len + 1) { lines.push(format!("rl A it pred {} : l n n l n", x)); lines.push(format!("rl A it succ {} : l n n l n", x)); }
